@@ -44,7 +44,10 @@ pub fn run(ctx: &mut Ctx) {
     let n = if quick { 30_000 } else { 1_500_000 };
     ctx.run_cases(n, |ctx, idx, rng| {
         let size = *rng.pick(&[0usize, 0, 1, 1, 2, 2]);
-        let (desc, tree) = if idx % 4 == 3 {
+        let (desc, tree) = if idx % 4 == 3 && rng.chance(0.15) {
+            let k = rng.range(6, 40);
+            (format!("shared_chance_fan(k={})", k), gen::shared_chance_fan(rng, k))
+        } else if idx % 4 == 3 {
             // contention workload for the parallel solvers: wide trees with hidden moves, so that
             // one infoset lies below several frontier nodes handed to different workers
             let mut par = gen::GenParams::random(rng, 2);
